@@ -68,6 +68,8 @@ POOL = {
     'X-noacc': dict(g=G_PX, o={}, user={'postlex': 'noacc'}),                                           # a post-lexer that asks for nothing: same parser as X
     'A-et': dict(g=G_A, o={}, user={'edit_terminals': 'widen'}, build_user='edit_terminals=widen'),     # a module-level (picklable) callback that rewrites terminal C
     'A-etl': dict(g=G_A, o={}, user={'edit_terminals': 'widen-closure'}, build_user='edit_terminals=widen'),   # the same edit by a closure (not picklable)
+    'A-fd': dict(g=G_A, o={}, int_name_file=True),                                   # the grammar comes from an unnamed temporary file: its .name is a file descriptor (an int)
+    'CL': dict(g=G_IL, o={}, user={'import_loader': 'closure'}, imports=[V + 'p1/sub.lark'], uncacheable=True),      # a custom import loader that is a closure: cannot be pickled
     'E1': dict(g=G_A + '// ', o={'keep_all_tokens': True}, opts_first=True),       # the key must tell where the grammar text ends and the options begin:
     'E2': dict(g=G_A + '// keep_all_tokensTrue', o={}),                            # ... a trailing comment that spells an option
     'G1': dict(g=G_IL, o={'import_paths': ['@simpkg']}, imports=[PKG_SUB]),                  # the library is a Python package: FromPackageLoader, used_files holds a PackageResource that can change
@@ -199,7 +201,7 @@ class C12(Check):
         nk = rng.choice([1, 2, 2, 3, 4])
         hk = [rng.choice(keys) for _ in range(nk)]
         if rng.random() < 0.3:
-            hk += rng.choice([['I1', 'I2'], ['O1', 'O2'], ['S1', 'S2'], ['O1', 'I1', 'S1'], ['P1', 'P2'], ['P2', 'P21', 'P1'], ['G1', 'G1'], ['G1', 'G1P', 'P1'], ['P31', 'P31'], ['P21', 'P21'], ['X', 'X-acc', 'X-noacc'], ['E1', 'E2', 'A-kat'], ['K', 'K-inv', 'K-basic'], ['N1', 'N1'], ['A', 'A-cb', 'A-tr'], ['K2', 'K2-none', 'K2-inv', 'K2-normal'],
+            hk += rng.choice([['I1', 'I2'], ['O1', 'O2'], ['S1', 'S2'], ['O1', 'I1', 'S1'], ['P1', 'P2'], ['P2', 'P21', 'P1'], ['G1', 'G1'], ['G1', 'G1P', 'P1'], ['P31', 'P31'], ['P21', 'P21'], ['X', 'X-acc', 'X-noacc'], ['E1', 'E2', 'A-kat'], ['A', 'A-fd'], ['CL', 'P1', 'CL'], ['K', 'K-inv', 'K-basic'], ['N1', 'N1'], ['A', 'A-cb', 'A-tr'], ['K2', 'K2-none', 'K2-inv', 'K2-normal'],
                               ['A', 'A-ph-explicit', 'A-noflags', 'A-start-list', 'A-noph']])
         if rng.random() < 0.04:
             hk = [rng.choice(ET_KEYS) for _ in range(3)]
@@ -323,8 +325,7 @@ class C12(Check):
         """symbolic cache path of a plan -> path on the simulated disk (True stays True: lark derives the name itself)"""
         return (V + 'c/' + path) if isinstance(path, str) and not path.startswith(V) else path
 
-    @staticmethod
-    def _user_objects(spec):
+    def _user_objects(self, spec):
         from lark import Transformer
         out = {}
         if spec.get('lexer_callbacks') == 'upper_c':
@@ -337,6 +338,16 @@ class C12(Check):
                 def C(self, t):
                     return len(t)
             out['transformer'] = Count()
+        if spec.get('import_loader') == 'closure':
+            disk_of = lambda: self.facade.proc().disk
+
+            def loader(base_path, grammar_path):
+                p_ = V + 'p1/' + grammar_path
+                t_ = disk_of().texts.get(p_)
+                if t_ is None:
+                    raise IOError(p_)
+                return p_, t_
+            out['import_paths'] = [loader]
         if spec.get('postlex'):
             from sim import userobjs
             out['postlex'] = userobjs.SwallowHash() if spec['postlex'] == 'acc' else userobjs.PassThrough()
@@ -363,6 +374,13 @@ class C12(Check):
         self.facade.cwd = k.get('cwd')
         if k.get('open'):
             return Lark.open(k['open'], parser='lalr', **kw)
+        if k.get('int_name_file'):
+            class _Unnamed:
+                name = 7                     # what open(fd) / tempfile.TemporaryFile() report as their name
+
+                def read(self_):
+                    return g
+            return Lark(_Unnamed(), parser='lalr', **kw)
         if k.get('opts_first'):
             ordered = {o_: kw[o_] for o_ in k['o']}             # (the order in which the caller spells the keyword arguments:
             ordered['parser'] = 'lalr'                          #  the plain options, then parser=, then the rest)
@@ -554,7 +572,7 @@ class C12(Check):
                              prov=str(prov_before.get(path if isinstance(path, str) else next(iter(proc.ropen), None))), fired=proc.fired)
         # (3) legitimate hits only
         cpaths = proc.ropen | proc.wopen
-        hit = bool(proc.ropen) and not proc.wopen and any(rp in proc.read_paths for rp in proc.ropen)
+        hit = bool(proc.ropen) and not proc.wopen and any(rp in proc.read_paths for rp in proc.ropen) and not POOL[keyname].get('uncacheable')     # (read, rejected, rebuilt and not written is not a hit)
         if hit:
             out.count('cache-hit')
             rp = next(iter(proc.ropen))
@@ -582,6 +600,12 @@ class C12(Check):
         if isinstance(path, str) and (cpaths - {path}):
             return Violation('collateral-access', life=li, key=keyname, paths=sorted(cpaths - {path}))
         # (4) repair: after a lifetime without any fault the file is a valid cache for this key
+        if POOL[keyname].get('uncacheable'):
+            # a parser that cannot be pickled (closure in import_paths) is never written: nothing to repair, everything else still holds
+            out.count('uncacheable-parser-built-without-caching')
+            if proc.wopen:
+                return Violation('wrote-cache-file-for-uncacheable-parser', life=li, key=keyname)
+            return None
         if not proc.fired and not fired_exc[0] and not any(p_ in disk.path_state for p_ in cpaths) and not (me and proc.hook is None):
             rp = next(iter(cpaths), None)
             if rp is None or rp not in disk.files:
